@@ -1,7 +1,7 @@
 """C15 — sampling is reproducible per model seed and never perturbs the global RNG."""
 import re
 import numpy as np
-from .. import cases, facts
+from .. import cases, facts, rnggen
 
 SEEDS = [7, 11, 42, 99, 123]
 NTOK = 400
@@ -382,8 +382,17 @@ def run(ctx):
     text, rows = facts.gen_rng_facts_coq()
     ctx.write('Gen_rngfacts.v', text)
     ctx.extra['rng_sites'] = [f'{r[1]}.{r[2]} uses={r[4]} protected={r[5]}' for r in rows]
+    # second tie: utils.set_random_state / random_state / validate_random_state, the set_random_state methods and the dataset
+    # generators translated statement by statement (Gen_rng.v); Props/C15.v proves them equal to Model.Rng (C15_bridge_*)
+    status, info = rnggen.generate(ctx)
+    for part in rnggen.PARTS:
+        ctx.obligation(f'translate:{part}', status.get(part, 'not attempted') is None, 'translation', status.get(part) or '')
+    ctx.extra['rng_translated'] = info
+    ctx.rule('translation: copulas/utils.py (context manager, decorator, validation), the set_random_state methods and every '
+             'datasets.sample_* generator are translated from the AST on every run into Gen_rng.v (strict shape check, fail-closed); '
+             'C15_bridge_ctx / _wrapper / _validate / _model_setter / _datasets prove the translated text equal to Model.Rng')
     ctx.copy_src('Props/C15.v')
-    ok = ctx.compile(['Gen_rngfacts.v', 'C15.v'])
+    ok = ctx.compile(['Gen_rngfacts.v', 'Gen_rng.v', 'C15.v'])
     ctx.rule('correspondence: random interleavings (3..12 ops) over 3 models (75% seeded) of decorated sample (25% raising), set_random_state '
              '(None/int/RandomState/invalid/negative), direct global draws, dataset-style context blocks (incl. nested), undecorated samplers; '
              'run on the REAL copulas.utils decorator/context manager with RNG states mapped to (seed, draws) tokens and compared step by step '
@@ -406,6 +415,8 @@ def run(ctx):
         hits += 1
         ctx.violation('real:' + key, what, {'repro': 'from vf.props.C15 import check_datasets; r=check_datasets(); print(r); assert not r'})
     ctx.extra['witness_search_hits'] = hits
-    ctx.trusted += ['Model.Rng is a hand-written transcription of copulas/utils.py (decorator, context manager, validation) and of the dataset context blocks; tied by the trace correspondence',
+    ctx.trusted += ['Model.Rng is a hand-written transcription of copulas/utils.py (decorator, context manager, validation) and of the dataset context blocks; tied by the trace correspondence '
+                    'AND by the statement-by-statement translation of the current source (tools/vf/rnggen.py -> Gen_rng.v) proved equal to it in Props/C15.v',
+                    'tools/vf/rnggen.py: the py_* / np_random_* vocabulary (fixed header of Gen_rng.v) and the shape-checking translator; the number of values a drawing call consumes is an oracle k',
                     'RNG states are abstract (seed, count) tokens: nothing about the Mersenne Twister is modelled',
                     'tools/vf/facts.py (AST extraction of decorators and np.random uses)']
